@@ -987,6 +987,7 @@ func FireNext(horizon time.Duration) bool {
 type TimerInfo struct {
 	Name, Owner string
 	Periodic    bool
+	Pending     int // values fired into the timer's channel and not yet received
 }
 
 // Timers lists the armed timers in creation order.
@@ -1000,7 +1001,7 @@ func Timers() []TimerInfo {
 	var out []TimerInfo
 	for _, t := range ts {
 		if t.active {
-			out = append(out, TimerInfo{t.name, t.owner, t.period > 0})
+			out = append(out, TimerInfo{t.name, t.owner, t.period > 0, len(t.c)})
 		}
 	}
 	return out
@@ -1016,7 +1017,7 @@ func FireTimer(match func(TimerInfo) bool) bool {
 	}
 	var best *timer
 	for _, t := range s.timers {
-		if t.active && match(TimerInfo{t.name, t.owner, t.period > 0}) && (best == nil || t.seq < best.seq) {
+		if t.active && match(TimerInfo{t.name, t.owner, t.period > 0, len(t.c)}) && (best == nil || t.seq < best.seq) {
 			best = t
 		}
 	}
